@@ -1191,7 +1191,10 @@ def execute(schedule, ctx):
                 outcome = 'skipped'
             else:
                 path, target = found[op['k'] % len(found)]
-                undo_fn = mutate_in_place(target)
+                # a span object that the *caller* handed to two objects (reindex onto an existing object's own span) is
+                # shared by the caller's choice, not by fsic
+                by_caller = any(pj is not party and pj.obj.__dict__.get('span') is target for pj in parties)
+                undo_fn = None if by_caller else mutate_in_place(target)
                 if undo_fn is None:
                     outcome = 'skipped'
                 else:
